@@ -81,6 +81,8 @@ def _build(cube, kw, order, rev):
         if types[i] == 'defense':
             dstat[i] = kw['d%d' % i]
             nodes[i].defense_status = dstat[i]
+            if ('sp%d' % i) in kw and kw['sp%d' % i]:
+                nodes[i].tags = ['suppress']       # a suppressed defense is still labelled from its status
         elif types[i] in ('exist', 'notExist'):
             estat[i] = kw['x%d' % i]
             nodes[i].existence_status = estat[i]
@@ -128,11 +130,13 @@ def body_order(cube, **kw):
     return ''
 
 
-def _params(n, types, selfloops, ttc_dom, ttc_nodes):
+def _params(n, types, selfloops, ttc_dom, ttc_nodes, sup=False):
     ps = []
     for i in range(n):
         if types[i] == 'defense':
             ps.append(F('d%d' % i, 0.0, 1.0))
+            if sup:
+                ps.append(B('sp%d' % i))
         elif types[i] in ('exist', 'notExist'):
             ps.append(B('x%d' % i))
         if ttc_dom > 1 and i in ttc_nodes:
@@ -152,11 +156,11 @@ def _wit(ps, **over):
     return w
 
 
-def family(name, n, tvecs, selfloops, ttc_dom, ttc_nodes, timeout, body=body_gfp, extra=(), maxe=None, split=()):
+def family(name, n, tvecs, selfloops, ttc_dom, ttc_nodes, timeout, body=body_gfp, extra=(), maxe=None, split=(), sup=False):
     """One Query per parameter signature (the signature depends on the type vector)."""
     groups = {}
     for ts in tvecs:
-        ps = _params(n, ts, selfloops, ttc_dom, ttc_nodes) + list(extra)
+        ps = _params(n, ts, selfloops, ttc_dom, ttc_nodes, sup) + list(extra)
         groups.setdefault(tuple((p.name, p.typ) for p in ps), []).append((ts, ps))
     res = []
     for gi, (sig, members) in enumerate(sorted(groups.items())):
@@ -168,9 +172,9 @@ def family(name, n, tvecs, selfloops, ttc_dom, ttc_nodes, timeout, body=body_gfp
             cubes=[{'n': n, 'types': list(ts)} for ts, _ in members], timeout=timeout,
             witnesses=[({'n': n, 'types': list(members[0][0])}, _wit(ps, **{ebits[0]: True, ebits[-1]: True}))],
             bound='%d nodes, type vectors %s, %s self-loops, every edge set%s, symbolic defense status in [0,1] (real), '
-                  'symbolic existence status, TTC kind pick among the first %d of %s on nodes %s' % (
+                  'symbolic existence status%s, TTC kind pick among the first %d of %s on nodes %s' % (
                       n, [list(m[0]) for m in members], 'with' if selfloops else 'without',
-                      '' if maxe is None else ' with <= %d edges' % maxe, ttc_dom,
+                      '' if maxe is None else ' with <= %d edges' % maxe, ', defenses optionally tagged suppress' if sup else '', ttc_dom,
                       [t and t['name'] for t in TTCS], list(ttc_nodes))))
     return res
 
@@ -181,6 +185,7 @@ def queries(tier):
     src = ['defense', 'exist']
     if tier == 'quick':
         qs += family('g2', 2, list(P(TYPES5, repeat=2)), True, 3, [0, 1], 300)
+        qs += family('g2s', 2, [t for t in P(TYPES5, repeat=2) if 'defense' in t], True, 1, [], 300, sup=True)
         # two status-carrying parents feeding one or/and step (TTC gate on the reading side), all non-self edges
         qs += family('g3t', 3, [a + (c,) for a in [('defense', 'defense'), ('defense', 'exist'), ('exist', 'exist')] for c in ('or', 'and')],
                      False, 3, [0, 1], 300, maxe=2, split=['k0', 'k1'])
@@ -190,6 +195,7 @@ def queries(tier):
                      extra=[I('perm', 0, 1), B('rev')], split=['perm', 'rev'])
     else:
         qs += family('g2', 2, list(P(TYPES5, repeat=2)), True, 4, [0, 1], 900)
+        qs += family('g2s', 2, [t for t in P(TYPES5, repeat=2) if 'defense' in t], True, 1, [], 900, sup=True)
         qs += family('g3', 3, list(P(['or', 'and', 'defense'], repeat=3)), False, 2, [0, 1], 1700, maxe=3)
         qs += family('g3s', 3, [('defense',) + b for b in P(['or', 'and'], repeat=2)] + [('or', 'and', 'or'), ('and', 'and', 'or')], True, 1, [], 1700, maxe=4)
         qs += family('g3t', 3, [a + (c,) for a in P(TYPES5[2:], repeat=2) for c in ('or', 'and')], False, 4, [0, 1], 1700, maxe=3, split=['k0'])
